@@ -373,6 +373,19 @@ def run(ctx):
         # the parsers reject sizes that do not fit what is left of the header, without wrap-around (C03-a rule)
         from . import c03
         c03.cursor_clauses(ck, prog, config, ca='C13-d', cb='C13-d')
+        # ---- h  bit-fields: the constants known to be stored in a bit-field fit its width (a digest size kept in too
+        #         few bits reads back as another size, and every digest reported through it is cut)
+        from ..rules import fielddom
+        nb = fielddom.check_bitfields(ck, prog, config, 'C13-h')
+        ck.ob('C13-h', 'R9.bitfield-width', 'rule self-check', 'positive-example',
+              not fielddom._fits(64, 6, 'unsigned int') and fielddom._fits(63, 6, 'unsigned int') and
+              fielddom._fits(-1, 2, 'int') and not fielddom._fits(2, 2, 'int'),
+              '%d bit-field(s) in the repository records; the width test rejects 64 in 6 unsigned bits and 2 in 2 signed '
+              'bits (kept as a positive example: the expected count on this tree is zero)' % nb, None, 0, config=config,
+              trivial=True)
+        ck.extra['digest_size_domain'] = sorted(fielddom.by_name(prog).get('digest_size', []))
+        ck.require(max(fielddom.by_name(prog).get('digest_size', [0])) >= 64,
+                   'value set of digest_size no longer derivable from the hash table')
         # ---- g  no gate of the parsers compares a narrowed value
         from ..rules import extra
         extra.check_narrow_compare(ck, prog, config, 'C13-g', ('src/lib/header.c', 'src/lib/index/index_read.c',
